@@ -62,10 +62,20 @@ def main():
         ok = True
         fails = ""
         for i in range(2):
-            rc, out = run("go test -vet=off -count=1 -p 8 ./...", wt, 1500)
+            rc, out = run("go test -vet=off -count=1 -p 6 ./...", wt, 1500)
             if rc != 0:
-                ok = False
-                fails = "\n".join(l for l in out.splitlines() if l.startswith("FAIL") or l.startswith("--- FAIL"))[:500]
+                # timing-sensitive tests fail under machine load: a failing package
+                # must pass three times in a row when run alone, otherwise the
+                # suite is considered to fail with the patch
+                pkgs = sorted({l.split()[1] for l in out.splitlines() if l.startswith("FAIL\t") and len(l.split()) > 1})
+                fails += "\n".join(l for l in out.splitlines() if l.startswith("--- FAIL"))[:300]
+                for pkg in pkgs:
+                    for k in range(3):
+                        rc2, out2 = run(f"go test -vet=off -count=1 -p 1 {pkg}", wt, 600)
+                        if rc2 != 0:
+                            ok = False
+                if not pkgs:
+                    ok = False
         res["suite_passes_with"] = ok
         if fails:
             res["suite_failures"] = fails
